@@ -25,9 +25,11 @@ def _calc_overlapping_labels(
     Returns:
         _type_: _description_
     """
-    overlap_arr = prediction_arr.astype(np.uint32)
-    max_ref = max(ref_labels) + 1
-    overlap_arr = (overlap_arr * max_ref) + reference_arr
+    # encode each (prediction, reference) label pair in 64 bit: a 32 bit code overflows
+    # as soon as both label values exceed 2^16
+    overlap_arr = prediction_arr.astype(np.uint64)
+    max_ref = int(max(ref_labels)) + 1
+    overlap_arr = (overlap_arr * np.uint64(max_ref)) + reference_arr.astype(np.uint64)
     overlap_arr[reference_arr == 0] = 0
     # overlapping_indices = [(i % (max_ref), i // (max_ref)) for i in np.unique(overlap_arr) if i > max_ref]
     # instance_pairs = [(reference_arr, prediction_arr, i, j) for i, j in overlapping_indices]
@@ -35,7 +37,7 @@ def _calc_overlapping_labels(
     # (ref, pred)
     return [
         (int(i % (max_ref)), int(i // (max_ref)))
-        for i in np.unique(overlap_arr)
+        for i in np.unique(overlap_arr).tolist()
         if i > max_ref
     ]
 
